@@ -102,23 +102,33 @@ def methodsJson (m : Methods) : Json :=
   Json.mkObj [("fill", m.fill), ("compute", m.compute), ("request", m.request),
     ("callable", m.callable), ("empty_run", m.emptyRun)]
 
-def runOne {σ : Type} (brs : List (Branch σ V)) (copyBuf : Bool) (flow : List V) (bs : Option Nat) : Json :=
+def sameJson (a b : Json) : Bool := a.compress == b.compress
+
+def runOne {σ : Type} (spec : Bool) (brs : List (Branch σ V)) (copyBuf : Bool) (flow : List V) (bs : Option Nat) : Json :=
   let s : Split σ V := { branches := brs, bufsize := bs, copyBuf := copyBuf }
   let tr := s.runTrace flow
   let inv := brs.map (fun b => ofList evJson (invocations b.id tr))
-  Json.mkObj [("out", ofList vJson (s.run flow)), ("inv", Json.arr inv.toArray),
+  let base := [("out", ofList vJson (s.run flow)), ("inv", Json.arr inv.toArray),
     ("blocks", ofList (ofList vJson) (blocks bs flow)),
     ("spec_out", ofList vJson (if brs.isEmpty then flow else outputs (s.schedule flow))),
+    ("assert", Json.bool (tr.any (fun e => match e with | .assertFail => true | _ => false)))]
+  if !spec then Json.mkObj base else
+  -- the specification side, definition by definition (requested for a part of the cases only: the replies are big)
+  let bl := blocks bs flow
+  let ptr := brs.map (fun b => ofList evJson (proj b.id tr))
+  let agree := brs.map (fun b =>
+    sameJson (ofList evJson (proj b.id tr)) (ofList evJson (closedForm b bl)) &&
+    sameJson (ofList evJson (proj b.id tr)) (ofList evJson (branchTrace b bl)))
+  Json.mkObj (base ++ [
     ("spec_fold", ofList vJson (if brs.isEmpty then flow else outputs (s.runSpec flow))),
-    ("ptrace", ofList (fun b => ofList evJson (proj b.id tr)) brs),
-    ("pspec", ofList (fun b => ofList evJson (closedForm b (blocks bs flow))) brs),
-    ("pbranch", ofList (fun b => ofList evJson (branchTrace b (blocks bs flow))) brs),
+    ("ptrace", Json.arr ptr.toArray),
+    -- `closedForm b bl` and `branchTrace b bl` give the same JSON as `proj b.id trace`
+    ("spec_agree", ofList Json.bool agree),
     ("pout", ofList (fun b => ofList vJson (outputsOf b.id tr)) brs),
     ("precv", ofList (fun b => ofList vJson (received (proj b.id tr))) brs),
     ("pempty", if flow.isEmpty then ofList (fun b => ofList evJson (invocationOf b :: outs b.id (resultOf b))) brs
                else Json.null),
-    ("finaliser", ofList (fun b => evJson (finaliser b)) brs),
-    ("assert", Json.bool (tr.any (fun e => match e with | .assertFail => true | _ => false)))]
+    ("finaliser", ofList (fun b => evJson (finaliser b)) brs)])
 
 /-! ### op "runx": exceptions, the objects after the run, consecutive runs, nested Splits run per block -/
 
@@ -272,12 +282,13 @@ def handle (j : Json) : Json :=
     match obrs? j, flow? (getD j "flow"), (arr? (getD j "bufsizes")).bind (fun a => a.toList.mapM optNat),
         bool? (getD j "copy_buf") with
     | some osp, some flow, some bss, some cb =>
+      let spec := (bool? (getD j "spec")).getD false
       -- without a nested Split the branches are the harness elements themselves (`mkHarnessBranches`)
       match osp.mapM (fun o => match o with
           | .plain h => if h.pre || h.post then none else some h.base
           | .nest _ => none) with
-      | some sp => Json.mkObj [("runs", ofList (runOne (mkHarnessBranches 0 sp) cb flow) bss)]
-      | none => Json.mkObj [("runs", ofList (runOne (mkOuterBranches 0 osp) cb flow) bss)]
+      | some sp => Json.mkObj [("runs", ofList (runOne spec (mkHarnessBranches 0 sp) cb flow) bss)]
+      | none => Json.mkObj [("runs", ofList (runOne spec (mkOuterBranches 0 osp) cb flow) bss)]
     | _, _, _, _ => err "bad run args"
   | some "runx" => handleRunX j
   | some "zipctx" => handleZipCtx j
